@@ -33,6 +33,205 @@ KEYWORDS = sorted(G.KEYWORDS)
 SYMS = ["[", "]", "(", ")", "{", "}", ";", ",", "+", "-", "=", "~=", "<", "<=", ">", ">=", "~", ":=", "|", "#", "'", '"', ":"]
 
 ODD = [
+    'val c = #7FFFFFFF + #7FFFFFFF; proc main() is 0(c)',
+    'val c = #7FFFFFFF - #80000000; proc main() is 0(c)',
+    'val c = #7FFFFFFF < #FFFFFFFF; proc main() is 0(c)',
+    'val c = #7FFFFFFF <= 2147483647; proc main() is 0(c)',
+    'val c = #7FFFFFFF > (-2147483647); proc main() is 0(c)',
+    'val c = #7FFFFFFF >= (0-1); proc main() is 0(c)',
+    'val c = #7FFFFFFF = 2000000000; proc main() is 0(c)',
+    'val c = #7FFFFFFF ~= (-2000000000); proc main() is 0(c)',
+    'val c = #7FFFFFFF + 1; proc main() is 0(c)',
+    'val c = #7FFFFFFF - 0; proc main() is 0(c)',
+    'val c = #7FFFFFFF < 4294967295; proc main() is 0(c)',
+    'val c = #7FFFFFFF <= 4294967298; proc main() is 0(c)',
+    'val c = #7FFFFFFF > 99999999999999999999; proc main() is 0(c)',
+    'val c = #80000000 >= #7FFFFFFF; proc main() is 0(c)',
+    'val c = #80000000 = #80000000; proc main() is 0(c)',
+    'val c = #80000000 ~= #FFFFFFFF; proc main() is 0(c)',
+    'val c = #80000000 + 2147483647; proc main() is 0(c)',
+    'val c = #80000000 - (-2147483647); proc main() is 0(c)',
+    'val c = #80000000 < (0-1); proc main() is 0(c)',
+    'val c = #80000000 <= 2000000000; proc main() is 0(c)',
+    'val c = #80000000 > (-2000000000); proc main() is 0(c)',
+    'val c = #80000000 >= 1; proc main() is 0(c)',
+    'val c = #80000000 = 0; proc main() is 0(c)',
+    'val c = #80000000 ~= 4294967295; proc main() is 0(c)',
+    'val c = #80000000 + 4294967298; proc main() is 0(c)',
+    'val c = #80000000 - 99999999999999999999; proc main() is 0(c)',
+    'val c = #FFFFFFFF < #7FFFFFFF; proc main() is 0(c)',
+    'val c = #FFFFFFFF <= #80000000; proc main() is 0(c)',
+    'val c = #FFFFFFFF > #FFFFFFFF; proc main() is 0(c)',
+    'val c = #FFFFFFFF >= 2147483647; proc main() is 0(c)',
+    'val c = #FFFFFFFF = (-2147483647); proc main() is 0(c)',
+    'val c = #FFFFFFFF ~= (0-1); proc main() is 0(c)',
+    'val c = #FFFFFFFF + 2000000000; proc main() is 0(c)',
+    'val c = #FFFFFFFF - (-2000000000); proc main() is 0(c)',
+    'val c = #FFFFFFFF < 1; proc main() is 0(c)',
+    'val c = #FFFFFFFF <= 0; proc main() is 0(c)',
+    'val c = #FFFFFFFF > 4294967295; proc main() is 0(c)',
+    'val c = #FFFFFFFF >= 4294967298; proc main() is 0(c)',
+    'val c = #FFFFFFFF = 99999999999999999999; proc main() is 0(c)',
+    'val c = 2147483647 ~= #7FFFFFFF; proc main() is 0(c)',
+    'val c = 2147483647 + #80000000; proc main() is 0(c)',
+    'val c = 2147483647 - #FFFFFFFF; proc main() is 0(c)',
+    'val c = 2147483647 < 2147483647; proc main() is 0(c)',
+    'val c = 2147483647 <= (-2147483647); proc main() is 0(c)',
+    'val c = 2147483647 > (0-1); proc main() is 0(c)',
+    'val c = 2147483647 >= 2000000000; proc main() is 0(c)',
+    'val c = 2147483647 = (-2000000000); proc main() is 0(c)',
+    'val c = 2147483647 ~= 1; proc main() is 0(c)',
+    'val c = 2147483647 + 0; proc main() is 0(c)',
+    'val c = 2147483647 - 4294967295; proc main() is 0(c)',
+    'val c = 2147483647 < 4294967298; proc main() is 0(c)',
+    'val c = 2147483647 <= 99999999999999999999; proc main() is 0(c)',
+    'val c = (-2147483647) > #7FFFFFFF; proc main() is 0(c)',
+    'val c = (-2147483647) >= #80000000; proc main() is 0(c)',
+    'val c = (-2147483647) = #FFFFFFFF; proc main() is 0(c)',
+    'val c = (-2147483647) ~= 2147483647; proc main() is 0(c)',
+    'val c = (-2147483647) + (-2147483647); proc main() is 0(c)',
+    'val c = (-2147483647) - (0-1); proc main() is 0(c)',
+    'val c = (-2147483647) < 2000000000; proc main() is 0(c)',
+    'val c = (-2147483647) <= (-2000000000); proc main() is 0(c)',
+    'val c = (-2147483647) > 1; proc main() is 0(c)',
+    'val c = (-2147483647) >= 0; proc main() is 0(c)',
+    'val c = (-2147483647) = 4294967295; proc main() is 0(c)',
+    'val c = (-2147483647) ~= 4294967298; proc main() is 0(c)',
+    'val c = (-2147483647) + 99999999999999999999; proc main() is 0(c)',
+    'val c = (0-1) - #7FFFFFFF; proc main() is 0(c)',
+    'val c = (0-1) < #80000000; proc main() is 0(c)',
+    'val c = (0-1) <= #FFFFFFFF; proc main() is 0(c)',
+    'val c = (0-1) > 2147483647; proc main() is 0(c)',
+    'val c = (0-1) >= (-2147483647); proc main() is 0(c)',
+    'val c = (0-1) = (0-1); proc main() is 0(c)',
+    'val c = (0-1) ~= 2000000000; proc main() is 0(c)',
+    'val c = (0-1) + (-2000000000); proc main() is 0(c)',
+    'val c = (0-1) - 1; proc main() is 0(c)',
+    'val c = (0-1) < 0; proc main() is 0(c)',
+    'val c = (0-1) <= 4294967295; proc main() is 0(c)',
+    'val c = (0-1) > 4294967298; proc main() is 0(c)',
+    'val c = (0-1) >= 99999999999999999999; proc main() is 0(c)',
+    'val c = 2000000000 = #7FFFFFFF; proc main() is 0(c)',
+    'val c = 2000000000 ~= #80000000; proc main() is 0(c)',
+    'val c = 2000000000 + #FFFFFFFF; proc main() is 0(c)',
+    'val c = 2000000000 - 2147483647; proc main() is 0(c)',
+    'val c = 2000000000 < (-2147483647); proc main() is 0(c)',
+    'val c = 2000000000 <= (0-1); proc main() is 0(c)',
+    'val c = 2000000000 > 2000000000; proc main() is 0(c)',
+    'val c = 2000000000 >= (-2000000000); proc main() is 0(c)',
+    'val c = 2000000000 = 1; proc main() is 0(c)',
+    'val c = 2000000000 ~= 0; proc main() is 0(c)',
+    'val c = 2000000000 + 4294967295; proc main() is 0(c)',
+    'val c = 2000000000 - 4294967298; proc main() is 0(c)',
+    'val c = 2000000000 < 99999999999999999999; proc main() is 0(c)',
+    'val c = (-2000000000) <= #7FFFFFFF; proc main() is 0(c)',
+    'val c = (-2000000000) > #80000000; proc main() is 0(c)',
+    'val c = (-2000000000) >= #FFFFFFFF; proc main() is 0(c)',
+    'val c = (-2000000000) = 2147483647; proc main() is 0(c)',
+    'val c = (-2000000000) ~= (-2147483647); proc main() is 0(c)',
+    'val c = (-2000000000) + (0-1); proc main() is 0(c)',
+    'val c = (-2000000000) - 2000000000; proc main() is 0(c)',
+    'val c = (-2000000000) < (-2000000000); proc main() is 0(c)',
+    'val c = (-2000000000) <= 1; proc main() is 0(c)',
+    'val c = (-2000000000) > 0; proc main() is 0(c)',
+    'val c = (-2000000000) >= 4294967295; proc main() is 0(c)',
+    'val c = (-2000000000) = 4294967298; proc main() is 0(c)',
+    'val c = (-2000000000) ~= 99999999999999999999; proc main() is 0(c)',
+    'val c = 1 + #7FFFFFFF; proc main() is 0(c)',
+    'val c = 1 - #80000000; proc main() is 0(c)',
+    'val c = 1 < #FFFFFFFF; proc main() is 0(c)',
+    'val c = 1 <= 2147483647; proc main() is 0(c)',
+    'val c = 1 > (-2147483647); proc main() is 0(c)',
+    'val c = 1 >= (0-1); proc main() is 0(c)',
+    'val c = 1 = 2000000000; proc main() is 0(c)',
+    'val c = 1 ~= (-2000000000); proc main() is 0(c)',
+    'val c = 1 + 1; proc main() is 0(c)',
+    'val c = 1 - 0; proc main() is 0(c)',
+    'val c = 1 < 4294967295; proc main() is 0(c)',
+    'val c = 1 <= 4294967298; proc main() is 0(c)',
+    'val c = 1 > 99999999999999999999; proc main() is 0(c)',
+    'val c = 0 >= #7FFFFFFF; proc main() is 0(c)',
+    'val c = 0 = #80000000; proc main() is 0(c)',
+    'val c = 0 ~= #FFFFFFFF; proc main() is 0(c)',
+    'val c = 0 + 2147483647; proc main() is 0(c)',
+    'val c = 0 - (-2147483647); proc main() is 0(c)',
+    'val c = 0 < (0-1); proc main() is 0(c)',
+    'val c = 0 <= 2000000000; proc main() is 0(c)',
+    'val c = 0 > (-2000000000); proc main() is 0(c)',
+    'val c = 0 >= 1; proc main() is 0(c)',
+    'val c = 0 = 0; proc main() is 0(c)',
+    'val c = 0 ~= 4294967295; proc main() is 0(c)',
+    'val c = 0 + 4294967298; proc main() is 0(c)',
+    'val c = 0 - 99999999999999999999; proc main() is 0(c)',
+    'val c = 4294967295 < #7FFFFFFF; proc main() is 0(c)',
+    'val c = 4294967295 <= #80000000; proc main() is 0(c)',
+    'val c = 4294967295 > #FFFFFFFF; proc main() is 0(c)',
+    'val c = 4294967295 >= 2147483647; proc main() is 0(c)',
+    'val c = 4294967295 = (-2147483647); proc main() is 0(c)',
+    'val c = 4294967295 ~= (0-1); proc main() is 0(c)',
+    'val c = 4294967295 + 2000000000; proc main() is 0(c)',
+    'val c = 4294967295 - (-2000000000); proc main() is 0(c)',
+    'val c = 4294967295 < 1; proc main() is 0(c)',
+    'val c = 4294967295 <= 0; proc main() is 0(c)',
+    'val c = 4294967295 > 4294967295; proc main() is 0(c)',
+    'val c = 4294967295 >= 4294967298; proc main() is 0(c)',
+    'val c = 4294967295 = 99999999999999999999; proc main() is 0(c)',
+    'val c = 4294967298 ~= #7FFFFFFF; proc main() is 0(c)',
+    'val c = 4294967298 + #80000000; proc main() is 0(c)',
+    'val c = 4294967298 - #FFFFFFFF; proc main() is 0(c)',
+    'val c = 4294967298 < 2147483647; proc main() is 0(c)',
+    'val c = 4294967298 <= (-2147483647); proc main() is 0(c)',
+    'val c = 4294967298 > (0-1); proc main() is 0(c)',
+    'val c = 4294967298 >= 2000000000; proc main() is 0(c)',
+    'val c = 4294967298 = (-2000000000); proc main() is 0(c)',
+    'val c = 4294967298 ~= 1; proc main() is 0(c)',
+    'val c = 4294967298 + 0; proc main() is 0(c)',
+    'val c = 4294967298 - 4294967295; proc main() is 0(c)',
+    'val c = 4294967298 < 4294967298; proc main() is 0(c)',
+    'val c = 4294967298 <= 99999999999999999999; proc main() is 0(c)',
+    'val c = 99999999999999999999 > #7FFFFFFF; proc main() is 0(c)',
+    'val c = 99999999999999999999 >= #80000000; proc main() is 0(c)',
+    'val c = 99999999999999999999 = #FFFFFFFF; proc main() is 0(c)',
+    'val c = 99999999999999999999 ~= 2147483647; proc main() is 0(c)',
+    'val c = 99999999999999999999 + (-2147483647); proc main() is 0(c)',
+    'val c = 99999999999999999999 - (0-1); proc main() is 0(c)',
+    'val c = 99999999999999999999 < 2000000000; proc main() is 0(c)',
+    'val c = 99999999999999999999 <= (-2000000000); proc main() is 0(c)',
+    'val c = 99999999999999999999 > 1; proc main() is 0(c)',
+    'val c = 99999999999999999999 >= 0; proc main() is 0(c)',
+    'val c = 99999999999999999999 = 4294967295; proc main() is 0(c)',
+    'val c = 99999999999999999999 ~= 4294967298; proc main() is 0(c)',
+    'val c = 99999999999999999999 + 99999999999999999999; proc main() is 0(c)',
+    'proc main() is 0(#7FFFFFFF + #FFFFFFFF)',
+    'proc main() is 0(2000000000 + (-2000000000))',
+    'val k = 1 + #80000000; array a[3]; proc main() is 0(k)',
+    'proc main() is 0(#7FFFFFFF - #FFFFFFFF)',
+    'proc main() is 0(2000000000 - (-2000000000))',
+    'val k = 1 - #80000000; array a[3]; proc main() is 0(k)',
+    'proc main() is 0(#7FFFFFFF < #FFFFFFFF)',
+    'proc main() is 0(2000000000 < (-2000000000))',
+    'val k = 1 < #80000000; array a[3]; proc main() is 0(k)',
+    'proc main() is 0(#7FFFFFFF <= #FFFFFFFF)',
+    'proc main() is 0(2000000000 <= (-2000000000))',
+    'val k = 1 <= #80000000; array a[3]; proc main() is 0(k)',
+    'proc main() is 0(#7FFFFFFF > #FFFFFFFF)',
+    'proc main() is 0(2000000000 > (-2000000000))',
+    'val k = 1 > #80000000; array a[3]; proc main() is 0(k)',
+    'proc main() is 0(#7FFFFFFF >= #FFFFFFFF)',
+    'proc main() is 0(2000000000 >= (-2000000000))',
+    'val k = 1 >= #80000000; array a[3]; proc main() is 0(k)',
+    'proc main() is 0(#7FFFFFFF = #FFFFFFFF)',
+    'proc main() is 0(2000000000 = (-2000000000))',
+    'val k = 1 = #80000000; array a[3]; proc main() is 0(k)',
+    'proc main() is 0(#7FFFFFFF ~= #FFFFFFFF)',
+    'proc main() is 0(2000000000 ~= (-2000000000))',
+    'val k = 1 ~= #80000000; array a[3]; proc main() is 0(k)',
+    'proc main() is 0(-(#80000000))',
+    'val m = -(0 - #80000000); proc main() is 0(m)',
+    'proc main() is 0(#)',
+    'val z = #; proc main() is 0(z)',
+    'proc main() is 0(~(#7FFFFFFF + 1))',
+    'proc main() is 0((#7FFFFFFF + #7FFFFFFF) + (#80000000 - 1))',
     "", " ", "|", "| c", "\xff", "proc", "proc main", "proc main()", "proc main() is", "proc main() is skip x", "proc main() is skip x y",
     "val a = b; val b = a; proc main() is 0(a)", "val a = a; proc main() is 0(a)", "var g; val v = g; proc main() is 0(v)",
     "proc main() is 0(f(1) = 2)", "proc main() is x := 1", "var x; var x; proc main() is x := 1", "proc main() is main := 1",
